@@ -20,10 +20,10 @@ class Crash(Exception):
 
 
 class Session:
-    def __init__(self, binary, verdict, extra_env=None, mon=MON_LIGHT, timeout=60, cpus=None):
+    def __init__(self, binary, verdict, extra_env=None, mon=MON_LIGHT, timeout=60, cpus=None, sanitized=False):
         self.b = binary
         self.v = verdict
-        self.w = Worker(extra_env=extra_env, cpus=cpus, stderr_path=os.environ.get('VERIF_WORKER_STDERR'))
+        self.w = Worker(extra_env=extra_env, cpus=cpus, stderr_path=os.environ.get('VERIF_WORKER_STDERR'), sanitized=sanitized)
         self.mon = mon
         self.timeout = timeout
         self.pid = None
@@ -50,7 +50,7 @@ class Session:
         except WorkerDead:
             rc = self.w.exit_status()
             self.w.kill()
-            raise Crash('died', {'cmd': name, 'args': kw, 'exit_status': rc})
+            raise Crash('died', {'cmd': name, 'args': kw, 'exit_status': rc, 'sanitizer': [t[:6000] for t in self.w.asan_reports()]})
         if 'panic' in r:
             raise Crash('panic', {'cmd': name, 'args': kw, 'panic': r['panic']})
         for e in r.get('ev', []):
